@@ -20,6 +20,7 @@ import (
 	"grog/internal/execution"
 	"grog/internal/label"
 	"grog/internal/loading"
+	"grog/internal/locking"
 	"grog/internal/model"
 	"grog/internal/output"
 	"grog/internal/selection"
@@ -148,12 +149,36 @@ func buildAndRunTargets(ctx context.Context, logger *console.Logger, graph *dag.
 		config.Global.GetLoadOutputsMode(),
 	)
 
-	for _, runTarget := range runTargets {
-		loadDependencyOutputsIfNeeded(ctx, logger, graph, runTarget)
+	if config.Global.GetLoadOutputsMode() == config.LoadOutputsMinimal {
+		// Loading the outputs of the dependencies writes into the workspace (and may
+		// re-run dependencies), i.e. it is build work that needs the workspace lock
+		// which RunBuild has already released again.
+		releaseWorkspaceLock := lockWorkspace(ctx, logger)
+		for _, runTarget := range runTargets {
+			loadDependencyOutputsIfNeeded(ctx, logger, graph, runTarget)
+		}
+		releaseWorkspaceLock()
 	}
 
 	if err := runTargetBinaries(ctx, logger, runTargets, userCommandArgs); err != nil {
 		logger.Fatalf("%v", err)
+	}
+}
+
+// lockWorkspace acquires the workspace lock (unless skip_workspace_lock is set)
+// and returns the function that releases it.
+func lockWorkspace(ctx context.Context, logger *console.Logger) (release func()) {
+	if config.Global.SkipWorkspaceLock {
+		return func() {}
+	}
+	locker := locking.NewWorkspaceLocker()
+	if err := locker.Lock(ctx); err != nil {
+		logger.Fatalf("could not acquire workspace lock: %v", err)
+	}
+	return func() {
+		if err := locker.Unlock(); err != nil {
+			logger.Fatalf("failed to release workspace lock: %v", err)
+		}
 	}
 }
 
